@@ -3,6 +3,9 @@
 //! usage: harness <property> [--seed N] [--tier quick|thorough] [--shard i/n] [--out FILE] [extra…]
 mod common;
 mod c13;
+mod c17;
+mod c07;
+mod c06;
 mod c04;
 mod c05;
 mod c19;
@@ -12,6 +15,7 @@ mod c20;
 mod c01;
 mod c16;
 mod pkggen;
+mod bld;
 
 use common::*;
 
@@ -29,6 +33,10 @@ pub fn eval_request(req: &str) -> String {
     let r = guarded(std::panic::AssertUnwindSafe(|| {
         None // one line per property module
             .or_else(|| c13::eval(op, a))
+            .or_else(|| c17::eval(op, a))
+            .or_else(|| c07::eval(op, a))
+            .or_else(|| c06::eval(op, a))
+            .or_else(|| bld::eval(op, a))
             .or_else(|| c04::eval(op, a))
             .or_else(|| c05::eval(op, a))
             .or_else(|| c19::eval(op, a))
@@ -95,6 +103,9 @@ fn main() {
             }
         }
         "C13" => c13::gen(&mut ctx),
+        "C17" => c17::gen(&mut ctx),
+        "C07" => c07::gen(&mut ctx),
+        "C06" => c06::gen(&mut ctx),
         "C04" => c04::gen(&mut ctx),
         "C05" => c05::gen(&mut ctx),
         "C19" => c19::gen(&mut ctx),
